@@ -452,7 +452,7 @@ func TestC07(t *testing.T) {
 	}
 	for _, driver := range vlib.Drivers() {
 		driver := driver
-		parallelCases(vlib.Scale(12, 300), 4, func(i int) { contractEconomy(ev, "C07", driver, i) })
+		parallelCases(vlib.Scale(12, 60), 4, func(i int) { contractEconomy(ev, "C07", driver, i) })
 	}
 	finish(t, ev)
 }
